@@ -104,6 +104,14 @@ def run_one(sid, tier='quick', props=None, seed=None):
         for pid in props:
             out[pid] = run_check(wt, pid, tier, seed)
             print(f"{'CAUGHT' if out[pid]['fired'] else 'MISSED'} {sid} by {pid} [{tier}] rc={out[pid]['rc']} {out[pid]['wall']}s {out[pid]['mech'][:1]}", flush=True)
+        if not any(v['fired'] for v in out.values()) and os.path.exists(os.path.join(d, 'demo.py')):
+            # a later repair of the repository can neutralise an old seeded change: its own demo then passes with the patch
+            r2 = sh(['/venv/bin/python', '-B', os.path.join(d, 'demo.py')], env=dict(os.environ, FGGS_PATH=wt))
+            if r2.returncode == 0:
+                meta['neutralised_on_current_tree'] = True
+                print(f'NEUTRALISED {sid}: its own demo passes with the patch applied to the current tree (a later fix removed the trigger)', flush=True)
+            else:
+                meta.pop('neutralised_on_current_tree', None)
     meta.setdefault('detection', {})
     for pid, v in out.items():
         meta['detection'][f'{pid}:{tier}'] = dict(fired=v['fired'], rc=v['rc'], mechanisms=v['mech'])
